@@ -396,6 +396,19 @@ class Check:
         if hits:
             ok = False
             log += "\nFORBIDDEN constructs:\n" + "\n".join(hits)
+        if ok and self.tier == "thorough" and not os.environ.get("VERIF_NO_COQCHK"):
+            # independent re-check of the compiled theorem files and everything they depend on
+            mods = ["Cobald." + t[:-3].replace("/", ".") for t in targets]
+            try:
+                pc = subprocess.run(["timeout", "1500", "coqchk", "-silent", "-o", "-R", ".", "Cobald"] + mods,
+                                    cwd=COQDIR, stdout=subprocess.PIPE, stderr=subprocess.STDOUT, text=True)
+                tail = pc.stdout[pc.stdout.find("CONTEXT SUMMARY"):] if "CONTEXT SUMMARY" in pc.stdout else pc.stdout[-600:]
+                self.coverage["coqchk"] = {"exit": pc.returncode, "summary": " ".join(tail.split())[:800]}
+                if pc.returncode != 0:
+                    ok = False
+                    log += "\ncoqchk failed:\n" + pc.stdout[-1500:]
+            except Exception as e:  # coqchk unavailable: recorded, not fatal
+                self.coverage["coqchk"] = {"error": str(e)}
         if bad_axioms:
             self.note("axioms reported by Print Assumptions: %s" % bad_axioms)
         return ok, log
@@ -487,9 +500,12 @@ def run_pure(mod, tier=None, seed=None, replay=None):
             okc, logc = coq_make(getattr(mod, "CORR_TARGETS", []), timeout=900)
             if not okc:
                 raise CoqEvalError("correspondence model does not build:\n" + "\n".join(logc.splitlines()[-20:]))
-            terms = [mod.coq_case(c, o) for (c, o, _v) in results]
+            terms_all = [mod.coq_case(c, o) for (c, o, _v) in results]
+            idx = [i for i, t in enumerate(terms_all) if t is not None]      # None = oracle-only case
+            terms = [terms_all[i] for i in idx]
             bad = coq_eval_cases(mod.ID, mod.CORR_PRELUDE, mod.CORR_CHECK, mod.CORR_TYPE, terms)
-            mism = [results[i] for i in bad]
+            mism = [results[idx[i]] for i in bad]
+            chk.coverage["oracle_only_cases"] = len(terms_all) - len(terms)
         except CoqEvalError as e:
             corr_err = str(e)
             chk.note("correspondence could not be evaluated: %s" % corr_err[-1500:])
